@@ -294,12 +294,20 @@ class JSObject:
         return None
 
     def define_getter(self, key: str, getter: Any) -> None:
-        """Define a getter for a property."""
+        """Define a getter for a property (replaces a data property of that name)."""
+        self._properties.pop(key, None)
         self._getters[key] = getter
 
     def define_setter(self, key: str, setter: Any) -> None:
-        """Define a setter for a property."""
+        """Define a setter for a property (replaces a data property of that name)."""
+        self._properties.pop(key, None)
         self._setters[key] = setter
+
+    def define_property(self, key: str, value: JSValue) -> None:
+        """Define a data property (replaces an accessor of that name)."""
+        self._getters.pop(key, None)
+        self._setters.pop(key, None)
+        self._properties[key] = value
 
     def set(self, key: str, value: JSValue) -> None:
         """Set a property value."""
